@@ -426,6 +426,8 @@ class Interp:
                     return list(v.items)
                 return [self.unknown(f"unpack arity {len(v.items)} != {n}", node)] * n
             return [v.elem] * n
+        if isinstance(v, ObjV) and getattr(v, "tuple_fields", None) and len(v.tuple_fields) == n:
+            return [v.fields.get(f, Unk(f"field {f}")) for f in v.tuple_fields]  # NamedTuple instance
         r = self.ops.unpack(v, n, node)
         if r is not None:
             return r
